@@ -106,6 +106,24 @@ def ref_call_rows(stage, changes, start_index, start_row, bob_ref, single_ref, o
     return rows, ok
 
 
+def special_reference(ty, stage):
+    """(changes, bob_ref, single_ref) of the built-in methods, written from their definitions in the
+    ringing literature: Grandsire = 3 then plain hunt, Bob 3 / Single 3.123 at the lead end; Stedman =
+    3.1.n.3.1.3.1.3.n.1.3.1, Bob n-2 / Single n-2,n-1,n at the six-ends (Doubles: no Bob, Singles 345 and 145)."""
+    if ty == "grandsire":
+        cross = [stage] if stage % 2 else []
+        ch = [[1] if i % 2 else list(cross) for i in range(2 * stage)]
+        ch[0] = [3]
+        return ch, {-1: [[3]]}, {-1: [[3], [1, 2, 3]]}
+    if ty == "stedman":
+        n = stage
+        ch = [[3], [1], [n], [3], [1], [3], [1], [3], [n], [1], [3], [1]]
+        if stage == 5:
+            return ch, {}, {6: [[3, 4, 5]], 12: [[1, 4, 5]]}
+        return ch, {3: [[n - 2]], 9: [[n - 2]]}, {3: [[n - 2, n - 1, n]], 9: [[n - 2, n - 1, n]]}
+    return None
+
+
 # ---- notation ASTs ------------------------------------------------------------------------------
 
 def rand_change(rng, stage, wellformed=True, allow_cross=True):
@@ -206,7 +224,7 @@ def rand_start_row(rng, stage, p=0.3):
 
 def rand_calldef(rng, stage, lead_len, multi=True):
     """Returns (definition as [[pos, notation]...], reference {pos: [changes]})."""
-    n = rng.choice([1, 1, 2, 3])
+    n = rng.choice([1, 1, 2, 3, 1, 1, 2, 0])      # (0: a call that is defined nowhere in the lead)
     d = []
     ref = {}
     used = set()
